@@ -173,6 +173,97 @@ def observe(conns):
     return sorted(out), cross
 
 
+def check_types(ck, report):
+    """(a) translator tie: the CASE arms of the view _fs_columns_snowflake, read from /repo's info_schema.py, against the model's arms
+    (generated theorem view_arms_match_source); (b) correspondence of info_name / info_prec / info_scale with the real view over a table
+    holding a column of every DuckDB type SQL can produce here; (c) the property: information_schema.columns / DESCRIBE agree with
+    cursor.description on type name, precision and scale (Props_C09.info_name_agrees_partial, info_precision_agrees_partial)."""
+    import os
+    import re
+    import subprocess
+
+    import c06
+    import view_translate
+
+    try:
+        src = view_translate.translate(core.REPO)
+    except view_translate.Unsupported as e:
+        src = None
+        report("view-translate", f"the CASE expressions of _fs_columns_snowflake in info_schema.py are no longer of the translated form ({e}): "
+                                 "theorem view_arms_match_source cannot be generated", {"theorem": "view_arms_match_source"}, no_input=True)
+    tie_ok = None
+    if src is not None:
+        out = core.VERIF / "build" / f"c09tie-{os.getpid()}"
+        out.mkdir(parents=True, exist_ok=True)
+        try:
+            def cs(x):
+                return "[" + "; ".join(str(ord(c)) for c in x) + "]"
+
+            def oz(x):
+                return "None" if x is None else f"(Some {x})"
+            n_, p_, s_ = src
+            (out / "Tie.v").write_text(
+                "From FS Require Import Sexp Types.\nOpen Scope Z_scope.\n"
+                f"Definition src_name_arms : list (bool * str * str) := [{'; '.join(f'({str(a).lower()}, {cs(b)}, {cs(c)})' for a, b, c in n_)}].\n"
+                f"Definition src_prec_arms : list (str * option Z) := [{'; '.join(f'({cs(a)}, {oz(b)})' for a, b in p_)}].\n"
+                f"Definition src_scale_arms : list (str * option Z) := [{'; '.join(f'({cs(a)}, {oz(b)})' for a, b in s_)}].\n"
+                "Theorem view_arms_match_source : (src_name_arms, src_prec_arms, src_scale_arms) = (name_arms, prec_arms, scale_arms).\n"
+                "Proof. vm_compute. reflexivity. Qed.\nPrint Assumptions view_arms_match_source.\n")
+            r = subprocess.run(f"timeout 300 coqc -Q {core.COQ}/theories FS Tie.v", shell=True, cwd=out, capture_output=True, text=True)
+            tie_ok = r.returncode == 0 and "Closed under the global context" in r.stdout
+            ck.cov["view_tie"] = {"name_arms": len(n_), "precision_arms": len(p_), "scale_arms": len(s_),
+                                  "theorem": "view_arms_match_source (generated from /repo/fakesnow/info_schema.py with sqlglot, checked by coqc)", "accepted": tie_ok}
+        finally:
+            import shutil
+            shutil.rmtree(out, ignore_errors=True)
+    # a column of every type
+    fs, conn = fsutil.fresh()
+    cur = conn.cursor()
+    cols = ["1 as c_int", "1::bigint as c_big", "1.5 as c_dec", "12345.678::number(10,3) as c_num", "1.5::double as c_dbl", "'x' as c_txt", "true as c_bool", "current_date as c_date",
+            "'12:00:00'::time as c_time", "current_timestamp::timestamp_ntz as c_ntz", "current_timestamp as c_tz", "parse_json('1') as c_var",
+            "1::smallint as c_small", "'ab'::binary as c_bin"]
+    cur.execute("create table c09_ty as select " + ", ".join(cols))
+    raw = fs.duck_conn.cursor().execute("select column_name, data_type from db1.information_schema.columns where table_name = 'C09_TY' order by ordinal_position").fetchall()
+    info = cur.execute("select column_name, data_type, numeric_precision, numeric_scale from information_schema.columns where table_name = 'C09_TY' order by ordinal_position").fetchall()
+    desc = cur.execute("describe table c09_ty").fetchall()
+    meta = conn.cursor().describe("select * from c09_ty")
+    fs.duck_conn.close()
+
+    def enc(t):
+        m_ = re.fullmatch(r"DECIMAL\((\d+),(\d+)\)", t)
+        return [2, int(m_.group(1)), int(m_.group(2))] if m_ else c06.PLAIN.get(t) or c06.OTHER.get(t) or [13, 99]
+    cases = [[enc(t) for _, t in raw]]
+    mo = core.model_eval("run_c09_types", cases)[0]
+    if core.kernel_failing("Types", "run_c09_types", [(cases[0], mo)], "C09"):
+        raise core.MachineryError("kernel and extracted model disagree on run_c09_types")
+    ck.kernel_checked += 1
+    ck.cov["evaluations"] += len(raw)
+    SF = {0: "NUMBER", 1: "FLOAT", 2: "TEXT", 3: "DATE", 12: "TIME", 8: "TIMESTAMP_NTZ", 7: "TIMESTAMP_TZ", 11: "BINARY", 5: "VARIANT", 13: "BOOLEAN"}
+    first_bad = None
+    for (cn, dt), (_, iname, iprec, iscale), drow, md, m in zip(raw, info, desc, meta, mo):
+        m_name, m_prec, m_scale, d_name, d_prec, d_scale, dom = m
+        rep = {"column": cn, "duckdb_type": dt, "information_schema": [iname, iprec, iscale], "describe_table": drow[1],
+               "description": [md.type_code, md.precision, md.scale], "model": [unstr(m_name[0]) if m_name else None, m_prec, m_scale]}
+        # (b) model of the view vs the view
+        if (unstr(m_name[0]) if m_name else None) != iname or m_prec != core.opt(iprec) or m_scale != core.opt(iscale):
+            first_bad = first_bad or rep
+            report("view-model", f"column {cn} ({dt}): information_schema.columns says {iname} precision {iprec} scale {iscale}, the model of the view says "
+                                 f"{rep['model']}; Props_C09.info_name_agrees_partial is no longer about this code", dict(rep, theorem="Props_C09.info_name_agrees_partial"), no_input=True)
+            continue
+        # (c) the property, independent of the model: the three channels name the same Snowflake type
+        want = SF.get(md.type_code)
+        if iname != want or not str(drow[1]).startswith("VARCHAR" if want == "TEXT" else want):
+            report("type-names", f"column {cn} ({dt}): information_schema.columns says {iname}, DESCRIBE TABLE {drow[1]}, cursor.description {want}", rep)
+        elif want == "NUMBER" and (iprec, iscale) != (md.precision, md.scale):
+            report("type-precision", f"column {cn} ({dt}): information_schema.columns says NUMBER({iprec},{iscale}), cursor.description NUMBER({md.precision},{md.scale})", rep)
+        elif want == "NUMBER" and drow[1] != f"NUMBER({md.precision},{md.scale})":
+            report("type-describe", f"column {cn} ({dt}): DESCRIBE TABLE says {drow[1]}, cursor.description NUMBER({md.precision},{md.scale})", rep)
+    if tie_ok is False:
+        model_arms = core.model_eval("run_c09_arms", [[]])[0]
+        report("view-tie", f"the CASE arms of _fs_columns_snowflake in info_schema.py {src} differ from the model's {model_arms}: the generated theorem view_arms_match_source is rejected by coqc",
+               {"source_arms": [list(map(list, src[0])), src[1], src[2]], "theorem": "view_arms_match_source", "first_differing_column": first_bad}, no_input=first_bad is None)
+
+
 def main():
     ck = Check("C09", "Meta", "run_c09")
     ck.prepare()
@@ -314,6 +405,8 @@ def main():
                             report("stale-length", f"{t['t']}.{dn}: a {ity} column reports character_maximum_length {ilen}", dict(rep, table=t))
     if n_dom < nh * 0.4:
         raise core.MachineryError(f"only {n_dom}/{nh} histories inside dom")
+    # (3b) Snowflake type names, precision and scale: the view's CASE arms (translator tie) and the three channels
+    check_types(ck, report)
     # (4) witnesses of the refuted statements / recorded findings, replayed
     probes = {
         "rename-column": ["create table r1 (v varchar(7)) comment = 'c'", "alter table r1 rename column v to w", "describe table r1"],
